@@ -52,7 +52,8 @@ def run_one(backend, path, timeout):
 
 def run(query, name="q", timeout=20, order=None, agree=False):
     """Sequential portfolio (cheap queries return at once from the first solver)."""
-    path = os.path.join(workdir(), f"{name}-{abs(hash(query)) % 10**10}.smt2")
+    safe = "".join(ch if ch.isalnum() else "_" for ch in name)[:60]
+    path = os.path.join(workdir(), f"{safe}-{abs(hash(query)) % 10**10}.smt2")
     with open(path, "w") as f:
         f.write(query)
     answers = []
